@@ -234,6 +234,13 @@ def scenarios():
                     [["loop", [["connect", 1], ["connect", 2], ["send", 1, "k"]]], ["loop", []]] + serve(1)
                     + [["loop", [["send", 2, "k"]]], ["loop", []], ["wait0", [["start", 2], ["handle", 2]]],
                        ["lock:murder_keepalived", []], ["lock:murder_keepalived", [["finish", 2]]]]))
+        # another worker wins the race for a connection this worker's poller already announced (accept() -> EAGAIN), as
+        # often as this worker has slots; a client that really reaches it afterwards is served and everything is closed
+        seq = []
+        for c in (1, 2):
+            seq += [["loop", [["connect", c]]], ["accept", [["steal", c]]], ["loop", []]]
+        seq += [["loop", [["connect", 3], ["send", 3, "c"]]], ["loop", []]] + serve(3) + [["loop", []]] * 3
+        out.append(("accept-race-lost", p, seq))
         # the keep-alive budget (worker_connections - threads parked connections): clients that make one request each
         # and stay; whoever is over the budget is answered with a close, so a later client is still served
         if k > 0:
